@@ -25,6 +25,7 @@ PARSER_FIELDS = {
     "canceled_balancing": ("RESET", ["self->canceled_balancing = 0"], []),
     "parse_options": ("RESET", ["self->parse_options = _"], []),
     "parse_state": ("RESET", ["self->parse_state = _"], []),
+    "canceled_parsing": ("RESET", ["self->canceled_parsing = 0"], []),
     "resume_position": ("RESET", ["self->resume_position = 0"], []),
     "resume_last_position": ("RESET", ["self->resume_last_position = 0"], []),
     "resume_version": ("RESET", ["self->resume_version = 0"], []),
@@ -198,6 +199,8 @@ def rule_p2(ctx, F):
         stores_lang = [pt for pt, n, l, op in stores(fn) if writes_record(l, "TSParser") == "language"]
         rst = [pt for pt, n in find(fn, "ts_parser_reset(self)")]
         ctx.before("P2", "ts_parser_set_language:reset-first", fn, stores_lang, rst, "changing the language resets the parser first")
+        # callers (the highlighter, the tags generator) use set_language as "start over": also re-assigning the same language resets
+        ctx.on_all_paths("P2", "ts_parser_set_language:always-resets", fn, rst, "every call of ts_parser_set_language resets the parser (a cancelled parse is discarded, whatever language is assigned)")
     fn = ctx.need_fn(F, "ts_lexer_set_input", "P3")
     if fn:
         ctx.on_all_paths("P3", "ts_lexer_set_input:clears-chunk", fn, [pt for pt, n in find(fn, "ts_lexer__clear_chunk(self)")], "a new input discards the cached chunk")
@@ -544,6 +547,41 @@ def rule_p9(ctx, F):
     ctx.after("P9", key + ":chunk-restored", fn, ahead, rest, "the chunk for the current position is re-established after reading elsewhere")
 
 
+def rule_p10(ctx, F):
+    """P10: a cancelled parse is recognised as outstanding whatever state it stopped in.  ts_parser_parse decides between
+    "resume" and "new parse" with ts_parser_has_outstanding_parse; the heuristics in it (stack state, node count, scanner
+    object) say nothing when the parse was cancelled before the first visible node was pushed.  So every cancelling
+    `return NULL` is preceded by setting a flag that is itself a disjunct of that test (and that ts_parser_reset clears —
+    C09.F1).  Otherwise the next call starts a "new" parse on the leftover stack and retains the old tree a second time."""
+    h = ctx.need_fn(F, "ts_parser_has_outstanding_parse", "P10")
+    fn = ctx.need_fn(F, "ts_parser_parse", "P10")
+    if not h or not fn:
+        return
+    flags = set()
+    for pt, e in h.points():
+        if e.get("k") == "ret" and e.get("e") is not None:
+            def ops(x):
+                x = strip(x)
+                if x.get("k") == "bin" and x.get("op") == "||":
+                    return ops(x["l"]) + ops(x["r"])
+                return [x]
+            for o in ops(e["e"]):
+                if o.get("k") == "mem" and (o.get("rec") or "") == "TSParser":
+                    flags.add(o["f"])
+    ctx.analysed["outstanding_parse_flags"] = sorted(flags)
+    test = [pt for pt, c in fn.calls() if callee_name(c) == "ts_parser_has_outstanding_parse"]
+    if not test or not flags:
+        ctx.bad("P10", "ts_parser_parse:cancel-sets-a-flag", "ts_parser_has_outstanding_parse has no flag disjunct (found %s) or is not consulted by ts_parser_parse" % sorted(flags))
+        return
+    from flow import reachable_blocks
+    after = reachable_blocks(fn, test[0][0])
+    rets = [pt for pt, e in fn.points() if e.get("k") == "ret" and e.get("e") is not None and strip(e["e"]).get("k") in ("null", "int") and not strip(e["e"]).get("v") and pt[0] in after and pt[0] != test[0][0]]
+    sets = [pt for pt, n, l, op in stores(fn) if writes_record(l, "TSParser") in flags and strip(n.get("r") or {}).get("k") == "int" and strip(n["r"]).get("v")]
+    ctx.floor("cancelling returns of ts_parser_parse", len(rets), 2)
+    ctx.before("P10", "ts_parser_parse:cancel-sets-a-flag", fn, rets, sets, "every cancelling `return NULL` is preceded by setting one of the flags ts_parser_has_outstanding_parse tests (%s)" % ", ".join(sorted(flags)),
+               reset_pts=[pt for pt, n, l, op in stores(fn) if writes_record(l, "TSParser") in flags and strip(n.get("r") or {}).get("k") == "int" and not strip(n["r"]).get("v")])
+
+
 def rule_p5(ctx, F):
     """P5: chunking and encoding.  A chunk is always requested for the lexer's current position; the
     decoder is the one of the declared encoding; the ASCII short-cut applies to UTF-8 only; the chunk is
@@ -599,6 +637,7 @@ def run(ctx):
         rule_p7(ctx, F)
         rule_p8(ctx, F)
         rule_p9(ctx, F)
+        rule_p10(ctx, F)
         # a rejected range list leaves the parser's ranges untouched (history independence; shared with C13.G1)
         import C13
         C13.rule_g1(ctx, F)
